@@ -20,6 +20,21 @@ Theorem C17_no_deadlock :
 Proof. exact cachelito_no_deadlock. Qed.
 Print Assumptions C17_no_deadlock.
 
+(* program-independent form: ANY lock traces that respect the order — what the correspondence
+   checks on every recorded trace of the real code, however the code is structured *)
+Theorem C17_no_deadlock_for_ordered_traces :
+  forall (enabled : config -> nat -> bool),
+    EnabledNonAcq enabled -> BlockedMeansHeld enabled ->
+    forall c0 : config,
+      (forall i th, nth_error c0 i = Some th ->
+         held th = [] /\
+         exists ts, Forall (fun t => trace_ordered t = true) ts /\ todo th = concat ts) ->
+      forall c, reachable enabled c0 c ->
+        (forall i th, nth_error c i = Some th -> todo th = []) \/
+        exists i c', step enabled c i c'.
+Proof. exact cachelito_no_deadlock_traces. Qed.
+Print Assumptions C17_no_deadlock_for_ordered_traces.
+
 (* the unrepaired code is rejected by the same checker (the premise matters) *)
 Theorem C17_unrepaired_callback_rejected :
   ordered (seqs [a RG_CHECK R; cond_cb_unrepaired; r RG_CHECK]) = false.
